@@ -76,7 +76,8 @@ class Abs(object):
                 out += ['P:rest']
             else:
                 for name, ev in (('P:rq', 'Evt6'), ('P:ac', 'Evt3'), ('P:rj', 'Evt4'), ('P:rel_rq', 'Evt12'), ('P:rel_rp', 'Evt13'),
-                                 ('P:abort_u', 'Evt16'), ('P:abort_p', 'Evt16'), ('P:unknown', 'Evt19')):
+                                 ('P:abort_u', 'Evt16'), ('P:abort_p', 'Evt16'), ('P:unknown', 'Evt19'), ('P:bad_rq', 'Evt19'),
+                                 ('P:bad_pdata', 'Evt19')):
                     if ev in row:
                         out.append(name)
                 if 'Evt10c' in row:
@@ -163,6 +164,12 @@ class Abs(object):
             conc, mevs = ('pdu', e2.std_abort(2, 1)), ['Evt16']
         elif a == 'P:unknown':
             conc, mevs = ('pdu', e2.unknown_pdu()), ['Evt19']
+        elif a == 'P:bad_rq':
+            raw = bytearray(e2.std_rq())
+            raw[10] = 0xC1                      # non-ASCII byte in the called AE title: the PDU cannot be decoded
+            conc, mevs = ('pdu', bytes(raw)), ['Evt19']
+        elif a == 'P:bad_pdata':
+            conc, mevs = ('pdu', bytes([4, 0]) + (3).to_bytes(4, 'big') + b'\x00\x00\x01'), ['Evt19']   # PDV header cut short
         elif a == 'P:half':
             conc, mevs = ('bytes', REL[:7]), []
             self.half = True
